@@ -343,10 +343,10 @@ for _k, _n in {
     'burn::tensor::Tensor::cat': 'cat_t', 'burn::tensor::Tensor::transpose': 'transpose', 'burn::tensor::Tensor::swap_dims': 'swap_dims',
     'burn::tensor::Tensor::flip': 'flip', 'burn::tensor::Tensor::dims': 'dims', 'burn::tensor::Tensor::shape': 'shape_t',
     'burn::tensor::Shape::new': 'shape_new',
-    'ndarray::ArrayBase::slice': 'nd_slice', 'ndarray::ArrayBase::index_axis': 'index_axis', 'ndarray::ArrayBase::column': 'column',
-    'ndarray::ArrayBase::row': 'row', 'ndarray::ArrayBase::t': 'transpose', 'ndarray::ArrayBase::insert_axis': 'insert_axis',
-    'ndarray::ArrayBase::broadcast': 'broadcast', 'ndarray::ArrayBase::shape': 'shape', 'ndarray::ArrayBase::dim': 'dim',
-    'ndarray::ArrayBase::nrows': 'nrows', 'ndarray::ArrayBase::ncols': 'ncols', 'ndarray::ArrayBase::first': 'first',
+    'ndarray::ArrayBase::slice': 'nd_slice', 'ndarray::ArrayBase::index_axis': 'index_axis', 
+    'ndarray::ArrayBase::t': 'transpose', 'ndarray::ArrayBase::insert_axis': 'insert_axis',
+    'ndarray::ArrayBase::broadcast': 'broadcast', 'ndarray::ArrayBase::shape': 'shape', 
+    'ndarray::ArrayBase::first': 'first',
     'ndarray::ArrayBase::last': 'last', 'ndarray::stack': 'stack', 'ndarray::concatenate': 'concatenate',
     'ndarray::ArrayBase::from_shape': 'from_shape', 'ndarray::ArrayBase::from_shape_vec': 'from_shape_vec',
     'ndarray::ArrayBase::zeros': 'zeros', 'burn::tensor::Tensor::zeros_like': 'zeros_like', 'burn::tensor::Tensor::ones': 'ones',
@@ -536,8 +536,11 @@ def h_axis_iter(vf, node, fn, args):
     r = args[0]
     ax = [tt(vf, a) for a in args[1:]]
     base = tt(vf, r)
+    if name == 'outer_iter':
+        name, ax = 'axis_iter', [_axis(0)]          # outer_iter() is axis_iter(Axis(0))
     if name in ('axis_iter', 'axis_iter_mut'):
-        n = T.app('len_of', base, *ax)
+        axn = ax[0][2][0][2][0] if ax and T.is_app(ax[0], 'adt:ndarray::Axis') and ax[0][2] and T.is_app(ax[0][2][0], 'f:0') else None
+        n = index_term(T.app('shape', base), axn) if axn is not None and T.is_num(axn) else T.app('len_of', base, *ax)
         if name == 'axis_iter_mut' and isinstance(r, Ref):
             return Seq(n, lambda i: Ref(Place(r.place.root, r.place.path + (('idx', T.app('axis', *(ax + [i]))),)), True), 'axis_iter_mut', src=base)
         return Seq(n, lambda i: T.app('index_axis', base, *(ax + [i])), 'axis_iter', src=base)
@@ -1108,3 +1111,56 @@ def h_slice_repeat(vf, node, fn, args):
 def h_iter_repeat(vf, node, fn, args):
     x = tt(vf, vf.deref(args[0]))
     return Seq(T.sym('inf'), lambda i: x, 'repeat', src=None)
+
+
+# ---------------------------------------------------------------- ndarray shape / lane vocabulary: one canonical spelling
+# shape()[k], dim().k, nrows(), ncols(), len_of(Axis(k)), raw_dim()  ->  index(shape(x), k) / shape(x)
+# column(j), row(i)                                                 ->  index_axis(x, Axis(1), j) / index_axis(x, Axis(0), i)
+
+def _axis(k):
+    return T.app('adt:ndarray::Axis', T.app('f:0', T.num(k)))
+
+
+@reg('SHAPE', 'ndarray::ArrayBase::dim')
+def h_nd_dim(vf, node, fn, args):
+    x = tt(vf, vf.deref(args[0]))
+    ty = str(node.get('ty', ''))
+    if ty.strip() == 'usize':
+        return index_term(T.app('shape', x), T.num(0))
+    if ty.startswith('(') and ty.endswith(')'):
+        rank = len([p_ for p_ in ty[1:-1].split(',') if p_.strip()])
+        return Tup([index_term(T.app('shape', x), T.num(k)) for k in range(rank)])
+    return T.app('dim', x)
+
+
+@reg('SHAPE', 'ndarray::ArrayBase::nrows')
+def h_nd_nrows(vf, node, fn, args):
+    return index_term(T.app('shape', tt(vf, vf.deref(args[0]))), T.num(0))
+
+
+@reg('SHAPE', 'ndarray::ArrayBase::ncols')
+def h_nd_ncols(vf, node, fn, args):
+    return index_term(T.app('shape', tt(vf, vf.deref(args[0]))), T.num(1))
+
+
+@reg('SHAPE', 'ndarray::ArrayBase::raw_dim')
+def h_nd_raw_dim(vf, node, fn, args):
+    return T.app('shape', tt(vf, vf.deref(args[0])))
+
+
+@reg('SHAPE', 'ndarray::ArrayBase::column')
+def h_nd_column(vf, node, fn, args):
+    return T.app('index_axis', tt(vf, vf.deref(args[0])), _axis(1), tt(vf, args[1]))
+
+
+@reg('SHAPE', 'ndarray::ArrayBase::row')
+def h_nd_row(vf, node, fn, args):
+    return T.app('index_axis', tt(vf, vf.deref(args[0])), _axis(0), tt(vf, args[1]))
+
+
+@reg('SHAPE', 'ndarray::ArrayBase::len_of')
+def h_nd_len_of(vf, node, fn, args):
+    x = tt(vf, vf.deref(args[0]))
+    a = tt(vf, args[1])
+    axn = a[2][0][2][0] if T.is_app(a, 'adt:ndarray::Axis') and a[2] and T.is_app(a[2][0], 'f:0') else None
+    return index_term(T.app('shape', x), axn) if axn is not None and T.is_num(axn) else T.app('len_of', x, a)
